@@ -57,6 +57,7 @@ Section Frag.
     | PNew _ _ => true
     | PBind p _ MImmediate => lookup_none (w_props w) p || (PropGrowAct2.unbound_b w p && PropGrowAct2.nab_b w p) || PropGrowAct2.bound_b w p
     | PReset _ => true
+    | PMoveCtor _ _ => true
     | _ => act2_opb w o
     end.
   Lemma grow_act_opb_sound w o : grow_act_opb w o = true -> PropGrowAct2.grow_act2_op w o.
